@@ -51,14 +51,19 @@ func c20GoTypes() []c20GoType {
 
 var (
 	c20APITags  = []string{"attr", "rel", "rel,roles", "other", "", "rel,emails,inv", "rel,", "rel,a,b,c", "attr,x", "rel,roles,", "related", "relative,roles"}
-	c20JSONTags = []string{"a", "b", "", "id", "ID", "c,omitempty"}
+	c20JSONTags = []string{"a", "b", "", "id", "ID", "c,omitempty", c20PresentEmpty}
 	c20IDs      = []string{"string+tags", "absent", "no-api-tag", "json-not-id", "no-json-tag", "int+tags", "string+tags+dash", "string+tags+declared-last", "named-string-type+tags"}
 )
+
+// c20PresentEmpty stands for a json tag that is present but empty (`json:""`), which names nothing, like an absent one
+const c20PresentEmpty = "\x00present-empty"
 
 type c20Field struct {
 	goType c20GoType
 	api    string
 	json   string
+	// emptyTag: the struct tag carries json:"" instead of no json key at all (json is "" in both cases)
+	emptyTag bool
 }
 
 var c20Cache = map[string]reflect.Type{}
@@ -87,6 +92,8 @@ func c20Struct(idKind int, fields []c20Field) (t reflect.Type, key string) {
 		var parts []string
 		if f.json != "" {
 			parts = append(parts, fmt.Sprintf(`json:%q`, f.json))
+		} else if f.emptyTag {
+			parts = append(parts, `json:""`)
 		}
 		if f.api != "" {
 			parts = append(parts, fmt.Sprintf(`api:%q`, f.api))
@@ -286,7 +293,11 @@ func c20Shapes(x *mc.Exec) {
 		if full {
 			ng, na, nj = len(gts), len(c20APITags), len(c20JSONTags)
 		}
-		return c20Field{gts[x.Choose(ng, "go type")], c20APITags[x.Choose(na, "api tag")], c20JSONTags[x.Choose(nj, "json tag")]}
+		f := c20Field{goType: gts[x.Choose(ng, "go type")], api: c20APITags[x.Choose(na, "api tag")], json: c20JSONTags[x.Choose(nj, "json tag")]}
+		if f.json == c20PresentEmpty {
+			f.json, f.emptyTag = "", true
+		}
+		return f
 	}
 	// first choice = first field (sharding), with a slot for "no field"
 	nFields := x.Choose(3, "fields")
@@ -309,7 +320,7 @@ func c20Shapes(x *mc.Exec) {
 func c20AfterEdits(x *mc.Exec) {
 	gts := c20GoTypes()
 	pick := func() c20Field {
-		return c20Field{gts[x.Choose(4, "go type")], c20APITags[x.Choose(4, "api tag")], c20JSONTags[x.Choose(2, "json tag")]}
+		return c20Field{goType: gts[x.Choose(4, "go type")], api: c20APITags[x.Choose(4, "api tag")], json: c20JSONTags[x.Choose(2, "json tag")]}
 	}
 	fields := []c20Field{pick()}
 	if x.Bool("second field") {
@@ -367,7 +378,7 @@ func c20Three(x *mc.Exec) {
 	// three fields over the interesting sub-alphabet (thorough only)
 	gts := c20GoTypes()
 	pick := func() c20Field {
-		return c20Field{gts[x.Choose(4, "go type")], c20APITags[x.Choose(4, "api tag")], c20JSONTags[x.Choose(3, "json tag")]}
+		return c20Field{goType: gts[x.Choose(4, "go type")], api: c20APITags[x.Choose(4, "api tag")], json: c20JSONTags[x.Choose(3, "json tag")]}
 	}
 	fields := []c20Field{pick(), pick(), pick()}
 	c20Judge(x, x.Choose(2, "id field")*3, fields)
@@ -376,7 +387,7 @@ func c20Three(x *mc.Exec) {
 func init() {
 	Register(&Prop{
 		ID: "C20",
-		Rule: "Engine A, all choices Full: ALL struct shapes built at run time with reflect.StructOf: 9 ID-field forms (of a named string type, string with tags, absent, no api tag, json tag != id, no json tag, int, json:\"id,omitempty\", declared after the other fields) x 0..2 further fields, each (Go type x api tag x json tag) from 19 Go types (supported, unsupported, pointers, slices, map, struct, named types with a supported underlying kind) x 12 api tags (attr, rel, 'rel,roles', 'rel,emails,inv', none, 'rel,', 'rel,a,b,c', other, 'attr,x', 'rel,roles,', related, 'relative,roles') x 6 json tags (a, b, empty, id, ID, 'c,omitempty'): every single field (600), all pairs over the 7x5x3 interesting sub-alphabet in quick and over the full alphabet in thorough (360000 x 7), plus all triples over a 4x4x3 sub-alphabet in thorough; each by value and by pointer. plus every accepted shape of 1..2 fields over a 4x4x2 sub-alphabet judged again after 6 kinds of edits made through the Type value and the maps obtained from an earlier wrapper of the same struct type. Oracle: an independent tag reader predicts the type; if Check accepts: BuildType/Wrap/New/Copy/Type.New/Set+Get of id and of every declared field with a value of its Go type/MarshalResource succeed and built type = predicted type = what the wrapper reports; if Check rejects: BuildType errors and Wrap panics. Non-trivial = accepted shape",
+		Rule: "Engine A, all choices Full: ALL struct shapes built at run time with reflect.StructOf: 9 ID-field forms (of a named string type, string with tags, absent, no api tag, json tag != id, no json tag, int, json:\"id,omitempty\", declared after the other fields) x 0..2 further fields, each (Go type x api tag x json tag) from 19 Go types (supported, unsupported, pointers, slices, map, struct, named types with a supported underlying kind) x 12 api tags (attr, rel, 'rel,roles', 'rel,emails,inv', none, 'rel,', 'rel,a,b,c', other, 'attr,x', 'rel,roles,', related, 'relative,roles') x 7 json tags (a, b, absent, id, ID, 'c,omitempty', present but empty): every single field (1596), all pairs over the 7x5x3 interesting sub-alphabet in quick and over the full alphabet in thorough (360000 x 7), plus all triples over a 4x4x3 sub-alphabet in thorough; each by value and by pointer. plus every accepted shape of 1..2 fields over a 4x4x2 sub-alphabet judged again after 6 kinds of edits made through the Type value and the maps obtained from an earlier wrapper of the same struct type. Oracle: an independent tag reader predicts the type; if Check accepts: BuildType/Wrap/New/Copy/Type.New/Set+Get of id and of every declared field with a value of its Go type/MarshalResource succeed and built type = predicted type = what the wrapper reports; if Check rejects: BuildType errors and Wrap panics. Non-trivial = accepted shape",
 		Harnesses: []Harness{
 			{Name: "C20/shapes", Body: c20Shapes},
 			{Name: "C20/after-type-edits", Body: c20AfterEdits},
